@@ -304,11 +304,11 @@ Proof.
     + inversion HR; subst. cbn [map combine fold_left]. destruct t; exact C1.
 Qed.
 
-(* the configuration written into the sample entry *)
-Lemma final_config b m0 ops m rs f tl :
+(* the configuration STORED by the writer is the one extracted from the first accepted video frame *)
+Lemma final_config_stored b m0 ops m rs f tl :
   build b [] = inl m0 -> run m0 ops = (m, rs) -> Forall op_payload_ok ops ->
   h_v (accepted b ops (map class_of rs)) = f :: tl ->
-  exists c, extract_config (cfg_codec b) (vf_data f) = Some c /\ effective_config (m_writer m) = c.
+  exists c, extract_config (cfg_codec b) (vf_data f) = Some c /\ w_vconfig (m_writer m) = Some c.
 Proof.
   intros Hb HR Hok EHV.
   assert (C : CInv b m (fold_left (acc_step b) (combine ops (map class_of rs)) acc0)).
@@ -318,8 +318,19 @@ Proof.
   rewrite accepted_fold in EHV. cbv zeta in EHV. cbn [h_v] in EHV.
   apply (f_equal (@rev vframe)) in EHV. rewrite rev_involutive in EHV. cbn [rev] in EHV.
   destruct (C f (rev tl) EHV) as [E1 E2].
-  unfold effective_config. destruct (w_vconfig (m_writer m)) as [c|]; [|congruence].
+  destruct (w_vconfig (m_writer m)) as [c|]; [|congruence].
   exists c. split; [symmetry; exact E1|reflexivity].
+Qed.
+
+(* the configuration written into the sample entry *)
+Lemma final_config b m0 ops m rs f tl :
+  build b [] = inl m0 -> run m0 ops = (m, rs) -> Forall op_payload_ok ops ->
+  h_v (accepted b ops (map class_of rs)) = f :: tl ->
+  exists c, extract_config (cfg_codec b) (vf_data f) = Some c /\ effective_config (m_writer m) = c.
+Proof.
+  intros Hb HR Hok EHV.
+  destruct (final_config_stored b m0 ops m rs f tl Hb HR Hok EHV) as (c & Ec & Est).
+  exists c. split; [exact Ec|]. unfold effective_config. rewrite Est. reflexivity.
 Qed.
 
 (** * Part 4: the configured dimensions reach the plan, and passed the finalize guard *)
@@ -374,6 +385,7 @@ Lemma finalize_ok_dims w v md f w' :
 Proof.
   unfold finalize. destruct (w_finalized w); [discriminate|].
   destruct ((U16MAX <? vt_width v) || (U16MAX <? vt_height v)) eqn:G; [discriminate|].
+  destruct (param_sets_too_long (w_vconfig w)) eqn:Gps; [discriminate|].
   intros _. unfold U16MAX in G. lia.
 Qed.
 
@@ -517,19 +529,20 @@ Proof.
   reflexivity.
 Qed.
 
-Lemma video_entry_ok codec v c d :
+(* the sample entry decodes to the first units of the first key frame as soon as the STORED configuration
+   passes the finish-time guard [param_sets_too_long] *)
+Lemma video_entry_ok_fit codec v c d :
   vt_width v < 65536 -> vt_height v < 65536 -> (codec = H264 \/ codec = H265) ->
   extract_config codec d = Some c ->
-  Forall (fun u => len u < 65536) (spec_units d) ->
+  param_sets_too_long (Some c) = false ->
   check_video_entry codec (vt_width v) (vt_height v) (Some d) (ventry_tree v c) = true.
 Proof.
-  intros Hw Hh Hcodec Hc Hsmall. rewrite Forall_forall in Hsmall.
-  assert (Hunit : forall p u, first_unit p d = Some u -> len u < 65536).
-  { intros p u H. apply first_unit_in in H. exact (Hsmall u H). }
+  intros Hw Hh Hcodec Hc Hfit.
   destruct Hcodec as [-> | ->]; cbn [extract_config] in Hc.
   - destruct (extract_avc_config d) as [a|] eqn:EA; [|discriminate Hc]. injection Hc as <-.
     destruct (extract_avc_is_first_units d a EA) as [U1 U2].
-    pose proof (Hunit _ _ U1) as L1. pose proof (Hunit _ _ U2) as L2.
+    cbn [param_sets_too_long] in Hfit. unfold U16MAX in Hfit.
+    assert (L1 : len (avc_sps a) < 65536) by lia. assert (L2 : len (avc_pps a) < 65536) by lia.
     unfold check_video_entry, ventry_tree, entry_config.
     cbn [node b_payload b_children b_typ].
     rewrite (visual_entry_strict v _ Hw Hh). rewrite !N.eqb_refl. cbn [andb].
@@ -543,7 +556,9 @@ Proof.
     rewrite E, (avcc_strict_nb a L1 L2), U1, U2, !opt_bytes_eqb_some. reflexivity.
   - destruct (extract_hevc_config d) as [hc|] eqn:EH; [|discriminate Hc]. injection Hc as <-.
     destruct (extract_hevc_is_first_units d hc EH) as (U1 & U2 & U3).
-    pose proof (Hunit _ _ U1) as L1. pose proof (Hunit _ _ U2) as L2. pose proof (Hunit _ _ U3) as L3.
+    cbn [param_sets_too_long] in Hfit. unfold U16MAX in Hfit.
+    assert (L1 : len (hevc_vps hc) < 65536) by lia. assert (L2 : len (hevc_sps hc) < 65536) by lia.
+    assert (L3 : len (hevc_pps hc) < 65536) by lia.
     unfold check_video_entry, ventry_tree, entry_config.
     cbn [node b_payload b_children b_typ].
     rewrite (visual_entry_strict v _ Hw Hh). rewrite !N.eqb_refl. cbn [andb].
@@ -554,6 +569,27 @@ Proof.
     assert (E : body (build_hvcc_box hc) = payload_of (build_hvcc_box hc)).
     { unfold build_hvcc_box. cbv zeta. apply body_is_payload_of. reflexivity. }
     rewrite E, (hvcc_strict_nb hc L1 L2 L3), U1, U2, U3, !opt_bytes_eqb_some. reflexivity.
+Qed.
+
+Lemma video_entry_ok codec v c d :
+  vt_width v < 65536 -> vt_height v < 65536 -> (codec = H264 \/ codec = H265) ->
+  extract_config codec d = Some c ->
+  Forall (fun u => len u < 65536) (spec_units d) ->
+  check_video_entry codec (vt_width v) (vt_height v) (Some d) (ventry_tree v c) = true.
+Proof.
+  intros Hw Hh Hcodec Hc Hsmall. rewrite Forall_forall in Hsmall.
+  assert (Hunit : forall p u, first_unit p d = Some u -> len u < 65536).
+  { intros p u H. apply first_unit_in in H. exact (Hsmall u H). }
+  apply video_entry_ok_fit; try assumption.
+  destruct Hcodec as [-> | ->]; cbn [extract_config] in Hc.
+  - destruct (extract_avc_config d) as [a|] eqn:EA; [|discriminate Hc]. injection Hc as <-.
+    destruct (extract_avc_is_first_units d a EA) as [U1 U2].
+    pose proof (Hunit _ _ U1) as L1. pose proof (Hunit _ _ U2) as L2.
+    cbn [param_sets_too_long]. unfold U16MAX. lia.
+  - destruct (extract_hevc_config d) as [hc|] eqn:EH; [|discriminate Hc]. injection Hc as <-.
+    destruct (extract_hevc_is_first_units d hc EH) as (U1 & U2 & U3).
+    pose proof (Hunit _ _ U1) as L1. pose proof (Hunit _ _ U2) as L2. pose proof (Hunit _ _ U3) as L3.
+    cbn [param_sets_too_long]. unfold U16MAX. lia.
 Qed.
 
 Lemma audio_entry_prefix_mod ch rate : audio_entry_prefix ch rate = audio_entry_prefix ch (rate mod 65536).
@@ -620,9 +656,13 @@ Qed.
 
 (** * Part 7 (S2): the configuration carried by the finished file *)
 
-(* The statement without a bound on the parameter-set lengths is false: avcC / hvcC store
-   16-bit lengths, and [build_avcc_box] truncates.  A first keyframe whose SPS is 65536 bytes
-   long is accepted, the finish succeeds, and the avcC record no longer decodes. *)
+(* The statement without a bound on the parameter-set lengths WAS false (former theorem
+   [finished_file_carries_stream_configuration_refuted], finding KF-C07 "oversized parameter set"): avcC / hvcC
+   store 16-bit lengths and [build_avcc_box] truncates, so a first keyframe whose SPS is 65536 bytes long was
+   accepted, the finish succeeded, and the avcC record no longer decoded.  Since the fix "finish returns an
+   error for parameter sets that do not fit avcC/hvcC's 16-bit length fields" the former witness history no
+   longer finishes successfully (below), and the statement holds without any bound
+   ([finished_file_carries_stream_configuration_unconditional], at the end of this file). *)
 Definition cex_b : builder :=
   {| b_video := Some (H264, 16, 16); b_audio := None; b_meta := None; b_fast := false;
      b_sps := None; b_pps := None; b_vps := None; b_av1 := None; b_vp9 := None |}.
@@ -637,39 +677,16 @@ Definition cex_m0 : muxer :=
      m_vcount := 0; m_acount := 0; m_finished := false;
      m_cur_vpts := f_zero; m_cur_apts := f_zero |}.
 
-Definition cex_summary :=
-  let '(m, rs) := run cex_m0 cex_ops in
-  (map class_of rs, len (sink_of m), len cex_frame, bytes_ok cex_frame,
-   check_C07 cex_b cex_ops (map class_of rs) (sink_of m)).
-(* accepted write, successful finish, 131736-byte file, 65553-byte frame of bytes < 256, check fails *)
-Eval vm_compute in cex_summary.
-
 Lemma cex_build : build cex_b [] = inl cex_m0.
 Proof. reflexivity. Qed.
-Lemma cex_in : exists s, In (RStats s) (snd (run cex_m0 cex_ops)).
-Proof. vm_compute. eexists. right. left. reflexivity. Qed.
 Lemma cex_ok : Forall op_payload_ok cex_ops.
 Proof. repeat constructor; vm_compute; reflexivity. Qed.
-Lemma cex_len : len (sink_of (fst (run cex_m0 cex_ops))) < 4294967296.
-Proof. vm_compute. reflexivity. Qed.
-Lemma cex_check :
-  check_C07 cex_b cex_ops (map class_of (snd (run cex_m0 cex_ops))) (sink_of (fst (run cex_m0 cex_ops))) = false.
-Proof. vm_compute. reflexivity. Qed.
 
-Theorem finished_file_carries_stream_configuration_refuted :
-  ~ (forall b m0 ops m rs s,
-       build b [] = inl m0 -> run m0 ops = (m, rs) -> In (RStats s) rs ->
-       Forall op_payload_ok ops -> len (sink_of m) < 4294967296 ->
-       (cfg_codec b = H264 \/ cfg_codec b = H265) ->
-       (match cfg_audio b with Some a => at_channels a < 65536 | None => True end) ->
-       check_C07 b ops (map class_of rs) (sink_of m) = true).
-Proof.
-  intros H. destruct cex_in as [s Hin].
-  pose proof (H cex_b cex_m0 cex_ops _ _ s cex_build (surjective_pairing _) Hin cex_ok cex_len
-                (or_introl eq_refl) I) as K.
-  rewrite cex_check in K. discriminate K.
-Qed.
-Print Assumptions finished_file_carries_stream_configuration_refuted.
+(* the former witness: the frame is still accepted, the finish now fails with InvalidInput and writes nothing *)
+Theorem former_oversized_sps_witness_is_rejected :
+  snd (run cex_m0 cex_ops) = [ROk; RErr (MIo IoInvalidInput)] /\ sink_of (fst (run cex_m0 cex_ops)) = [].
+Proof. vm_compute. split; reflexivity. Qed.
+Print Assumptions former_oversized_sps_witness_is_rejected.
 
 (* closest correct statement: the parameter sets of the first accepted keyframe (all units of
    its declarative split) fit the 16-bit length fields of avcC / hvcC *)
@@ -721,3 +738,39 @@ Proof.
   apply Forall_forall. intros u Hu. pose proof (spec_unit_small d u Hu). lia.
 Qed.
 Print Assumptions finished_file_carries_stream_configuration_short_keyframe.
+
+(** * Part 8: since the fix "finish returns an error for parameter sets that do not fit avcC/hvcC's 16-bit
+      length fields" a successful finish implies that the stored parameter sets fit, so the bound on the unit
+      lengths of the first key frame is no longer needed *)
+Theorem finished_file_carries_stream_configuration_unconditional : forall b m0 ops m rs s,
+  build b [] = inl m0 -> run m0 ops = (m, rs) -> In (RStats s) rs ->
+  Forall op_payload_ok ops -> len (sink_of m) < 4294967296 ->
+  (cfg_codec b = H264 \/ cfg_codec b = H265) ->
+  (match cfg_audio b with Some a => at_channels a < 65536 | None => True end) ->
+  check_C07 b ops (map class_of rs) (sink_of m) = true.
+Proof.
+  intros b m0 ops m rs s Hb HR HIn Hok Hlen Hcodec Hch.
+  pose proof (final_state b m0 ops m rs s Hb HR HIn Hok) as F.
+  pose proof (finished_params_fit b m0 ops m rs s Hb HR HIn) as Hfit.
+  destruct (finished_file_tracks_v b m0 ops m rs s Hb HR HIn Hok Hlen)
+    as (v & md & voffs & vspc & aoffs & top & Edims & Dw & Dh & Hread).
+  unfold check_C07. rewrite (fin_hist _ _ _ _ F). cbn [negb]. rewrite Hread, Edims.
+  rewrite track_of_video, track_of_audio.
+  apply andb_true_iff. split.
+  - unfold first_key_of in *.
+    destruct (h_v (accepted b ops (map class_of rs))) as [|f tl] eqn:EHV; [reflexivity|].
+    destruct (final_config b m0 ops m rs f tl Hb HR Hok EHV) as (c & Ec & Eeff).
+    assert (Hst : w_vconfig (m_writer m) = Some c).
+    { destruct (final_config_stored b m0 ops m rs f tl Hb HR Hok EHV) as (c' & Ec' & Est).
+      congruence. }
+    rewrite Eeff. rewrite Hst in Hfit.
+    change (tr_entry (vtrack v (from_samples (vsamples (m_writer m)) voffs vspc (w_vlast_delta (m_writer m))) c md))
+      with (ventry_tree v c).
+    apply video_entry_ok_fit; assumption.
+  - unfold aud_of. rewrite (sim_waudio _ _ _ (fin_sim _ _ _ _ F)).
+    destruct (cfg_audio b) as [a|]; [|reflexivity].
+    change (tr_entry (atrack a (from_samples (asamples (m_writer m)) aoffs 1 (w_alast_delta (m_writer m))) md))
+      with (aentry_tree a).
+    apply audio_entry_ok. exact Hch.
+Qed.
+Print Assumptions finished_file_carries_stream_configuration_unconditional.
